@@ -204,6 +204,54 @@ pub fn keyid_roundtrip_eq_ord_hash() {
     core::mem::forget(ib);
 }
 
+/// KeyId parsers of one kind reject the ids of the other kinds (C10): the id *bytes* are symbolic
+/// (every 33-byte id, canonical text through the reference encoder), the header is each of the
+/// other kinds' and the sibling version's — concrete, because a symbolic header followed by a
+/// 44-character tail is out of reach (see `paserk_strict`); the own-kind string must be accepted.
+/// Added after seeded change c10b (kind letter of `.lid.`/`.sid.`/`.pid.` not compared).
+fn keyid_kind<T: FromStr<Err = PasetoError>>(hdr: &[u8; 7], a: &[u8; 33]) -> bool {
+    let mut s = [0u8; 51];
+    s[..7].copy_from_slice(hdr);
+    assert!(ref_encode(a, &mut s[7..]) == 44);
+    let r = T::from_str(unsafe { core::str::from_utf8_unchecked(&s) });
+    let ok = r.is_ok();
+    core::mem::forget(r);
+    ok
+}
+macro_rules! keyid_cross {
+    ($($name:ident: $t:ty, $own:expr, [$($other:expr),*];)*) => {$(
+        #[kani::proof]
+        #[kani::unwind(64)]
+        pub fn $name() {
+            let a: [u8; 33] = kani::any();
+            $(assert!(!keyid_kind::<$t>($other, &a), "a key id with another kind's or version's header was accepted");)*
+            let own = keyid_kind::<$t>($own, &a);
+            assert!(own, "a canonical id of the parser's own kind was rejected");
+            kani::cover!(own);
+        }
+    )*};
+}
+keyid_cross! {
+    keyid_hdr_cross_kind_sid: KeyId<AV, Secret>, b"k4.sid.", [b"k4.lid.", b"k4.pid.", b"k3.sid."];
+    keyid_hdr_cross_kind_lid: KeyId<AV, Local>, b"k4.lid.", [b"k4.sid.", b"k4.pid.", b"k3.lid."];
+    keyid_hdr_cross_kind_pid: KeyId<AV, Public>, b"k4.pid.", [b"k4.lid.", b"k4.sid.", b"k3.pid."];
+}
+/// the kind letter symbolic, the tail concrete ("A"×44 = thirty-three zero bytes)
+#[kani::proof]
+#[kani::unwind(64)]
+pub fn keyid_hdr_kind_letter() {
+    let x: u8 = kani::any();
+    kani::assume(x < 0x80);
+    let mut s = [b'A'; 51];
+    s[..7].copy_from_slice(b"k4.sid.");
+    s[3] = x;
+    let r = KeyId::<AV, Secret>::from_str(unsafe { core::str::from_utf8_unchecked(&s) });
+    assert!(r.is_ok() == (x == b's'), "KeyId<Secret> must accept k4.?id.… iff ? == 's'");
+    kani::cover!(r.is_ok());
+    kani::cover!(r.is_err());
+    core::mem::forget(r);
+}
+
 /// Tokens: header ‖ payload [‖ '.' ‖ footer]; the dot position D (or none) is a case split.
 /// accepted <=> header matches, both segments canonical base64url, no further '.'.
 /// accepted => Display == s, or s == Display ‖ "." (empty footer).
